@@ -93,6 +93,17 @@ func zzFormat(which int) format.Format {
 		g := &format.Generic{PayloadTyp: zzPT(), RTPMa: rm}
 		zzAssert(g.Init() == nil, "generic format initialises")
 		return g
+	case 20:
+		// a format described without rtpmap (static payload type), with or without
+		// format parameters; a dynamic payload type without rtpmap is only valid in an
+		// application media and is not generated here
+		pt := []uint8{34, 31}[zzConcretize(zzIntIn("ptsel", 0, 1))]
+		g := &format.Generic{PayloadTyp: pt}
+		if zzBool("withFMTP") {
+			g.FMT = map[string]string{"k": "v"}
+		}
+		zzAssert(g.Init() == nil, "generic format without rtpmap initialises")
+		return g
 	}
 }
 
